@@ -231,6 +231,8 @@ enum Race {
     /// the root above the exiting node is killed / told to stop while that node is still on its way out
     AncestorKill,
     AncestorStop,
+    /// B is linked once more to the supervisor it already has (documented as harmless)
+    RelinkSame,
 }
 
 fn live_body(shape: Shape, at_root: bool, cause: Cause, race: Race, local_child: bool) -> vsched::Body {
@@ -346,6 +348,7 @@ fn live_body(shape: Shape, at_root: bool, cause: Cause, race: Race, local_child:
                         b3.get_cell().unlink(a3.get_cell());
                         ("unlink", true, None)
                     }
+                    Race::RelinkSame => ("relink-same", inspect::try_link(&b3.get_cell(), &a3.get_cell()), None),
                     Race::AncestorKill => {
                         r3.kill();
                         ("ancestor", true, None)
@@ -696,6 +699,11 @@ pub fn plan(tier: &str) -> Plan {
             live.push((shape, at_root, cause, race, false));
         }
     }
+    // a redundant link to the current supervisor, racing with that supervisor's exit
+    for cause in [Cause::Kill, Cause::Stop, Cause::SlowStop] {
+        live.push((Shape::Chain, false, cause, Race::RelinkSame, false));
+    }
+    live.push((Shape::Bushy, false, Cause::Panic, Race::RelinkSame, true));
     // an ancestor exits while a node in the middle is still on its way out (inside a slow post_stop, or draining)
     for cause in [Cause::SlowStop, Cause::DrainBacklog] {
         for (shape, race) in [(Shape::Chain, Race::AncestorKill), (Shape::Bushy, Race::AncestorKill), (Shape::Chain, Race::AncestorStop)] {
